@@ -133,7 +133,7 @@ def main(pid, tier, replay_path=None):
                 for i in range(1500 if tier == 'quick' else 40000):
                     scs.append({'id': 'rnd-%d-%d' % (seed, i), 'seed': seed * 100000 + i, 'strategy': rnd.choice(['random', 'random', 'pct']), 'plan': [],
                                 'shards': rnd.choice([1, 2, 2, 3]), 'adders': rnd.randint(1, 3), 'addsper': rnd.randint(1, 3), 'close': rnd.random() < 0.7,
-                                'lateadd': rnd.random() < 0.2, 'kind': 'rnd'})
+                                'lateadd': rnd.random() < 0.2, 'kind': 'rnd', 'nilmod': rnd.choice([0, 0, 2, 3, 11])})
             res, crashed = conn.run_scenarios(sc, binary, scs, 'q', procs=12, test='TestVerifShardQueue')
             if crashed:
                 raise vlib.Inconclusive('ShardQueue harness process died: ' + crashed[0][1][-600:])
